@@ -48,3 +48,19 @@ Theorem C09_content_change_fails_entry : forall Hb matches C, (forall f b, Foral
   e_digest e = c -> dh_entry_ok e cs' = false \/ collision Hb f.
 Proof. intros Hb matches C Hw. exact (changed_entry_fails Hb matches C Hw). Qed.
 Print Assumptions C09_content_change_fails_entry.
+
+(* KNOWN FINDING (known_findings.json: dh-missed-change:root-history-has-no-directory-hashes), as a witness in the faithful
+   model: the root history holds only a generation without root hash (-n); the nested history at Ab recorded a root hash
+   in xxh64 that no longer matches; verify -dh judges by the default format c4, for which nothing is recorded: a format
+   failed, yet the exit code is 0. *)
+Definition toyHb9 (f : fmt) (b : bytes) : bytes := be_of_N (width f) (fold_left N.add b 7%N).
+Definition gAb9 : gen := mkGen 1 [] (Some [mkEntry Xxh64 [49%N] None (Some [50%N])]) [] [] InPlace.
+Definition gR9 : gen := mkGen 1 [] None [] [] InPlace.
+Definition t9 : node N :=
+  Dir (Some (mkHist N [mkMfile N 1 0%N gR9] (Some [mkCentry 1 1 [0%N]])))
+      [([65%N; 98%N], Dir (Some (mkHist N [mkMfile N 1 0%N gAb9] (Some [mkCentry 1 1 [0%N]]))) [([120%N], File [1%N])])].
+Example C09_root_without_directory_hashes_refuted :
+  exists hs, load N (fun c => [c]) t9 = inl hs /\
+    In Xxh64 (dh_failed toyHb9 (fun _ _ => false) N hs t9 None false false default_ignore) /\
+    o_outcome (snd (verify_dh toyHb9 (fun _ _ => false) N (fun c => [c]) t9 None false false [] [])) = Exit 0.
+Proof. eexists. split; [vm_compute; reflexivity|]. split; vm_compute; auto. Qed.
